@@ -1,4 +1,4 @@
-CONSTANTS SIZES = {1, 2, 3, 4}  TMAX = 8  WMAX = 10  MAXE = 3  MAXW = 2  ITERS = 1  KEYS = {0}  BEFORE = FALSE
+CONSTANTS SIZES = {1, 2, 3, 4}  TMAX = 8  WMAX = 10  MAXE = 3  MAXW = 2  ITERS = 1  KEYS = {0}  BEFORE = FALSE  FIX_F4 = TRUE
 SPECIFICATION Spec
-INVARIANTS TypeOK C13_All
+INVARIANTS TypeOK C13_All C06_Late
 CHECK_DEADLOCK FALSE
